@@ -99,6 +99,10 @@ def get_slice_stat_from_samples(vals, slices, func=np.mean):
     if isinstance(vals, tuple):
         out = np.zeros((len(slices), ))
         for idx, s in enumerate(slices):
+            if s is None:
+                # No slice for this cycle, same result as for a single input
+                out[idx] = np.nan
+                continue
             args = [v[s] for v in vals]
             out[idx] = func(*args)
         return out
